@@ -42,7 +42,24 @@ fn curve_free(m: &Value) -> bool {
     }
 }
 
+/// a delta-min prefix that admits (on average) one job per time unit or more somewhere inside the model: the
+/// specification's closure of such a prefix over a long horizon has hundreds of entries and is slow to evaluate in TLC
+fn has_dense_prefix(m: &Value) -> bool {
+    match m {
+        Value::Object(o) => {
+            let dense_here = o.get("d").and_then(|d| d.as_array()).map(|d| {
+                let last = d.last().and_then(|x| x.as_u64()).unwrap_or(u64::MAX);
+                !d.is_empty() && last <= d.len() as u64
+            }).unwrap_or(false);
+            dense_here || o.values().any(has_dense_prefix)
+        }
+        Value::Array(a) => a.iter().any(has_dense_prefix),
+        _ => false,
+    }
+}
+
 pub fn horizon(m: &Value, cap: u64) -> u64 {
+    let cap = if has_dense_prefix(m) { cap.min(90) } else { cap };
     (3 * gen::span(m) + 4).min(cap)
 }
 
